@@ -145,23 +145,24 @@ Proof.
   exists [114;116;61]. split; [vm_compute; reflexivity|]. eexists. vm_compute. reflexivity.
 Qed.
 
-(* ------------------------------------------------------------------ open findings (handler) *)
+(* ------------------------------------------------------------------ findings in the handler *)
 
-(* F20c: the GET handler matches against the percent-escaped query text.  rt="a#b" and the
-   request option Uri-Query "rt=a#b": the filter relation holds for the resource, but the
-   handler's body is empty ('#' reaches the printer as %23). *)
+(* F20c (repaired): the GET handler matched against the percent-escaped query text.  rt="a#b"
+   and the request option Uri-Query "rt=a#b": the filter relation holds for the resource, but
+   the handler's body was empty ('#' reached the printer as %23). *)
 Theorem lf_handle_get_escaped_refuted :
   exists rs q r, lf_table_ok rs = true /\ rs = [r] /\ lf_filter_spec q r = true /\
-                 lf_handle_get rs [q] = Lf205 [].
+                 lf_handle_get_escaped rs [q] = Lf205 [] /\
+                 lf_handle_get rs [q] = Lf205 (lf_link r).
 Proof.
   exists [lf_add_attr (lf_res_init [97] false) [114;116] (Some [34;97;35;98;34])].
   exists [114;116;61;97;35;98]. eexists.
   split; [vm_compute; reflexivity|]. split; [reflexivity|].
-  split; vm_compute; reflexivity.
+  split; [vm_compute; reflexivity|]. split; vm_compute; reflexivity.
 Qed.
 
-(* F20d: without COAP_BLOCK_USE_LIBCOAP the body is cut to the room in the PDU and sent as a
-   complete response: 12 resources with a 100-byte rt value, room 1143 *)
+(* F20d (repaired): without COAP_BLOCK_USE_LIBCOAP the body was cut to the room in the PDU and
+   sent as a complete response: 12 resources with a 100-byte rt value, room 1143 *)
 Definition lf_ex_big : list lf_res :=
   map (fun i => lf_add_attr (lf_res_init [97 + Z.of_nat i] false) [114;116] (Some (repeat 120 100%nat)))
       (seq 0 12).
